@@ -450,7 +450,7 @@ func checkResolverTailSSA(res *Result, S *Streams, typ, method string) {
 				for _, bb := range fn.Blocks {
 					for _, i2 := range bb.Instrs {
 						bo, ok := i2.(*ssa.BinOp)
-						if !ok || bo.Op != token.EQL {
+						if !ok || (bo.Op != token.EQL && bo.Op != token.NEQ) {
 							continue
 						}
 						isRes := func(v ssa.Value) bool { return v == ssa.Value(c) }
@@ -495,7 +495,11 @@ func checkResolverTailSSA(res *Result, S *Streams, typ, method string) {
 						}
 						hit := false
 						for _, bo := range cmps {
-							if st.facts[fact{ff.canon(st, bo), fTRUE, ""}] {
+							want := fTRUE // `err == ErrUnhandledType` known true, or `err != …` known false
+							if bo.Op == token.NEQ {
+								want = fFALSE
+							}
+							if st.facts[fact{ff.canon(st, bo), want, ""}] {
 								hit = true
 							}
 						}
